@@ -413,14 +413,10 @@ func c15Plumbing(c *Ctx) {
 		if fn == nil {
 			continue
 		}
+		// by position, as at the call sites: (store, writable, ..., auth)
 		var pw, pa *ssa.Parameter
-		for _, p := range fn.Params {
-			switch p.Name() {
-			case "writable":
-				pw = p
-			case "auth":
-				pa = p
-			}
+		if len(fn.Params) >= 3 {
+			pw, pa = fn.Params[1], fn.Params[len(fn.Params)-1]
 		}
 		seen := map[string]bool{}
 		instrs(fn, func(_ *ssa.BasicBlock, _ int, ins ssa.Instruction) {
